@@ -340,6 +340,12 @@ func genScenario(src *tape.Source) *scenario {
 			}
 			sc.Files[i].Name = []string{"d/", "d/sub/", "d/sub/deeper/", "d/[old]/", "d/v1?/"}[src.Intn(5, "c19.depth")] + sc.Files[i].Name
 		}
+		if len(sc.Files) >= 2 && sc.Files[1].Kind != "missing" && src.Intn(3, "c19.twins") == 2 {
+			// the same file name (and text) in two directories: two inputs, not one
+			sc.Files[0].Name = "d/a/q.sql"
+			sc.Files[1].Name = "d/b/q.sql"
+			sc.Files[1].Content, sc.Files[1].Kind = sc.Files[0].Content, sc.Files[0].Kind
+		}
 	}
 	if input < 6 && !sc.DirMode && src.Intn(8, "c19.symlink") == 7 {
 		sc.Files[0].Link = true
@@ -1010,6 +1016,23 @@ func (p *P) independence(r *core.Result, sc *scenario, base *outcome) {
 	}
 }
 
+// matchInput maps a path named by a report to the input it denotes: the input
+// whose name is the longest path suffix of it (reports may print absolute paths
+// or URIs); unknown paths are returned as they are.
+func matchInput(reported string, ins []fileSpec) string {
+	rp := filepath.ToSlash(strings.TrimPrefix(reported, "file://"))
+	best := ""
+	for _, f := range ins {
+		if (rp == f.Name || strings.HasSuffix(rp, "/"+f.Name)) && len(f.Name) > len(best) {
+			best = f.Name
+		}
+	}
+	if best == "" {
+		return rp
+	}
+	return best
+}
+
 func (p *P) reportOracle(r *core.Result, sc *scenario, data string, rejected map[string]bool, ins []fileSpec) {
 	// strip cobra's error/usage text that follows the report on stdout? it goes to stderr; stdout must be the report alone
 	var named map[string]bool
@@ -1030,10 +1053,10 @@ func (p *P) reportOracle(r *core.Result, sc *scenario, data string, rejected map
 		}
 		named = map[string]bool{}
 		for _, e := range rep.Errors {
-			if named[filepath.Base(e.File)] {
+			if named[matchInput(e.File, ins)] {
 				r.Fail("report-names-failing-inputs", "validate json duplicate", fmt.Sprintf("%s: the JSON report lists %s more than once", sc, e.File))
 			}
-			named[filepath.Base(e.File)] = true
+			named[matchInput(e.File, ins)] = true
 		}
 		if !sc.Strict && rep.Results.Valid != nil && *rep.Results.Valid != (len(rep.Errors) == 0) {
 			r.Fail("report-names-failing-inputs", "validate json valid-flag", fmt.Sprintf("%s: results.valid=%v but the report lists %d errors", sc, *rep.Results.Valid, len(rep.Errors)))
@@ -1064,7 +1087,7 @@ func (p *P) reportOracle(r *core.Result, sc *scenario, data string, rejected map
 		for _, run := range rep.Runs {
 			for _, res := range run.Results {
 				for _, l := range res.Locations {
-					named[filepath.Base(l.PhysicalLocation.ArtifactLocation.URI)] = true
+					named[matchInput(l.PhysicalLocation.ArtifactLocation.URI, ins)] = true
 				}
 			}
 		}
@@ -1072,10 +1095,10 @@ func (p *P) reportOracle(r *core.Result, sc *scenario, data string, rejected map
 	want := map[string]bool{}
 	for _, f := range ins {
 		if rejected[f.Name] {
-			want[filepath.Base(f.Name)] = true
+			want[f.Name] = true
 		}
 		if blank(f.Content) && !rejected[f.Name] {
-			delete(named, filepath.Base(f.Name)) // blank inputs: either verdict is accepted (as in the exit-status oracle)
+			delete(named, f.Name) // blank inputs: either verdict is accepted (as in the exit-status oracle)
 		}
 	}
 	// the CLI cannot see --strict rejections if the option is not wired; that is judged by V1
